@@ -37,6 +37,14 @@ CHECKS = {
    technique="TLA+ transducer model of the JSON string writer over byte classes + scalar class tables (JsonWriter.tla) with theorems checked by TLC; every class sequence concretised and run through the real Marshal*/Unmarshal* functions with an independent RFC 8259/UTF-8 validator",
    text="JsonWriter.tla models writeQuotedString over 23 byte classes (controls, quote, backslash, valid 2/3/4-byte units, every kind of ill-formed UTF-8) together with a JSON-string acceptor, a decoder and the reference sanitiser; TLC checks for all class sequences up to 3 (quick) / 4 (thorough) units that the output is an RFC 8259 string, valid UTF-8, and decodes to the input with each offending byte replaced by U+FFFD, and checks the scalar encoder/decoder class tables (integers at every width boundary x carrier, floats incl. non-finite, ID forms, Time, Duration, UUID, Map, Any, Omittable). Each enumerated class is concretised into several seeded byte strings / values and run through the real functions; an independent strict validator, encoding/json decoding and the Unmarshal round trip must agree with the specification; FieldSet/Array/Response nestings are validated too.",
    note="Trusted: TLC, the harness's own validator, encoding/json. Times outside RFC 3339's range and MarshalFloat (non-default binding) with non-finite values are not decided."),
+ "C10": dict(level=EX, ref="DESIGN.md §5 C10, notes/C10.md",
+   technique="TLA+ models of request decoding per transport (Decode.tla) and of multipart upload forms / RawParams.AddUpload path walking (Upload.tla) checked by TLC; every enumerated input class, part order and (variables shape, map path) replayed against real servers in child processes",
+   text="Decode.tla enumerates (transport, body class) incl. JSON null / wrongly-typed members / truncated / trailing garbage for POST, SSE, multipart-mixed, urlencoded (all sub-formats), application/graphql, GET and websocket frames of both subprotocols; Upload.tla enumerates part orders (<= 4 quick, <= 5 thorough), map paths walked over abstract variable trees, and size classes around MaxMemory / MaxUploadSize; both carry a property level (Admissible) and an action level, TLC checks no-panic-path, temp-file cleanup, limits and exact delivery. Each case is concretised (seeded) and sent to a real handler.Server in supervised child processes with a private TMPDIR and a counting recover hook: outcome class, status family, body well-formedness, recover count 0, empty TMPDIR after the handler returned, and for delivered uploads exact bytes / name / content type / size / independent seekable readers are compared with the specification.",
+   note="Trusted: TLC, the child-process supervisor, the hand-written schema. Arbitrary byte strings outside the structured classes are not decided (raw fuzzing is a different technique)."),
+ "C16": dict(level=EX, ref="DESIGN.md §5 C16, notes/C16.md",
+   technique="TLA+ specification of the introspection view of an abstract schema with Rebuild(View(S)) = S checked by TLC (Introspect.tla) + gate machine; every enumerated / seeded schema rendered to SDL and served through the runtime introspection package and through generated servers, answers rebuilt and compared",
+   text="Introspect.tla defines abstract schemas (all kinds, interface-implements-interface, unions, directives incl. repeatable, defaults, descriptions, a deprecation flag on every element separately), View(S, includeDeprecated) per GraphQL section 4 and Rebuild; TLC checks Rebuild(View(S)) = S and well-formedness on all schemas of the bound and the disabled-introspection gate on a bounded space of hiding operations (aliases, fragments, variables, _service). Each schema (exhaustive slices + seeded ones whose views TLC evaluates through Feed_Introspect) is rendered to SDL, served by the runtime package and by servers generated from /repo's templates (both layouts, Config.Schema override), queried with the standard introspection query (includeDeprecated true / omitted / variable) and __type(name:), and the rebuilt abstract schema is compared element-wise; with introspection disabled the hiding operations must yield null + error and leak no schema name.",
+   note="Trusted: TLC, gqlparser as SDL loader, the JSON->abstract-schema rebuild. Two harmless representation differences ([] vs null for inapplicable lists, default deprecation reason) are tolerated and counted."),
 }
 NOT_YET = {}
 def main():
